@@ -600,6 +600,11 @@ func (g *c18Gen) item(family string, calls []*term.Term) *Item {
 	}
 	k := addInput(term.L(ws...))
 	c.Steps = append(c.Steps, proto.Step{Query: fmt.Sprintf("verif_in(%d, Ts), vw(Ts).", k), Max: c18Max})
+	// an op/3 directive that SUCCEEDED stays in force when the rest of its text cannot be loaded (only a failing op/3 call
+	// leaves the table as it was)
+	c.Steps = append(c.Steps,
+		proto.Step{Exec: "':-'(op(201, xfy, c18_kept)).\n':-'(op(0, xfx, '=>>')).\nc18_first(1).\nc18_bad(.\n"},
+		proto.Step{Query: "','(findall('-'(P, T), current_op(P, T, c18_kept), L1), findall('-'(P, T), current_op(P, T, '=>>'), L2)).", Max: c18Max})
 	meta, _ := json.Marshal(m)
 	var hs []string
 	for _, call := range calls {
@@ -902,7 +907,7 @@ func (c *c18) Judge(cx *Ctx, it *Item, outs []*run.Outcome) Verdict {
 			return Verdict{Status: Inconclusive, Msg: "helper clauses did not load: " + e.Text}
 		}
 	}
-	want := 1 + 2*len(m.Calls) + len(m.Probes) + 2
+	want := 1 + 2*len(m.Calls) + len(m.Probes) + 4
 	if len(res.Steps) != want {
 		return Verdict{Status: Inconclusive, Msg: fmt.Sprintf("expected %d step results, got %d", want, len(res.Steps))}
 	}
@@ -1105,7 +1110,7 @@ func (c *c18) Judge(cx *Ctx, it *Item, outs []*run.Outcome) Verdict {
 
 	// round trip of terms built from the probed names
 	{
-		rst := &res.Steps[len(res.Steps)-2]
+		rst := &res.Steps[len(res.Steps)-4]
 		if rst.Err != nil || len(rst.Answers) < 1 {
 			return j.violated("", "writing the round-trip terms to a file and reading them back did not succeed: %s", c18StepText(rst))
 		}
@@ -1122,7 +1127,7 @@ func (c *c18) Judge(cx *Ctx, it *Item, outs []*run.Outcome) Verdict {
 	}
 
 	// writer probes
-	wst := &res.Steps[len(res.Steps)-1]
+	wst := &res.Steps[len(res.Steps)-3]
 	if wst.Err != nil || len(wst.Answers) < 1 {
 		return j.violated("", "writeq of the probe terms did not succeed: %s", c18StepText(wst))
 	}
@@ -1154,6 +1159,28 @@ func (c *c18) Judge(cx *Ctx, it *Item, outs []*run.Outcome) Verdict {
 				return j.violated("", "writeq of the compound %s/%d under the final table (%s is %s) printed %q; expected %s", term.AtomText(n), ar, term.AtomText(n), c18Describe(model, n), out, exp)
 			}
 		}
+	}
+
+	// the text whose last clause is malformed
+	{
+		est, qst := &res.Steps[len(res.Steps)-2], &res.Steps[len(res.Steps)-1]
+		if est.Err == nil {
+			return j.violated("", "a text ending in the malformed clause 'c18_bad(.' was loaded without an error")
+		}
+		if qst.Err != nil || len(qst.Answers) < 1 {
+			return j.violated("", "current_op/3 after the text that could not be loaded: %s", c18StepText(qst))
+		}
+		a := qst.Answers[0]
+		l1, _ := term.ListElems(a["L1"])
+		if len(l1) != 1 || !term.Equal(l1[0], term.C("-", term.I(201), term.A("xfy"))) {
+			return j.violated("", "the directive op(201, xfy, c18_kept) succeeded, the text then failed to load at a later clause: current_op/3 shows %s for c18_kept (an op/3 call that succeeded is not undone)", a["L1"].String())
+		}
+		for _, e := range func() []*term.Term { es, _ := term.ListElems(a["L2"]); return es }() {
+			if e.IsCmp("-", 2) && (e.Args[1].IsAtom("xfx") || e.Args[1].IsAtom("xfy") || e.Args[1].IsAtom("yfx")) {
+				return j.violated("", "the directive op(0, xfx, =>>) succeeded, the text then failed to load at a later clause: current_op/3 still shows the infix definition %s of =>>", e.String())
+			}
+		}
+		j.extra["op_directives_kept_after_failed_text"]++
 	}
 
 	if j.deferred != nil {
